@@ -597,6 +597,9 @@ class Generator:
         self.unlisted = []
         self.errors = []
         self.stub_all = False
+        self.canaries = []
+        self._impl_header = None
+        self._canary_mods = 0
         for sf in unit.get("specs", []):
             for b in specfile.parse(os.path.join(VERIF, "contracts", sf)):
                 if b.key() in self.blocks:
@@ -633,6 +636,22 @@ class Generator:
         self.out.add("\n// ===== %s (extracted from the working tree) =====\n" % relfile, None)
         for it in items:
             self._emit_item(it, only, canary, extra_rules)
+        if self.canaries:
+            # vacuity canaries live in a child module (sees the parent's private items) so that Verus,
+            # which parallelises per module, checks them on another thread
+            self._canary_mods += 1
+            self.out.add("\npub mod verif_canaries_%d {\nuse super::*;\n" % self._canary_mods, None)
+            for hdr, segs in self.canaries:
+                if hdr is not None:
+                    for t, o in hdr:
+                        self.out.add(t, o)
+                    self.out.add("\n", None)
+                for t, o in segs:
+                    self.out.add(t, o)
+                if hdr is not None:
+                    self.out.add("}\n", None)
+            self.out.add("} // canaries\n", None)
+            self.canaries = []
 
     def _origin(self, tokidx, fnpath=None):
         relfile, src, toks, offs = self._cur
@@ -669,13 +688,16 @@ class Generator:
             if blk is not None:
                 for a in blk.attrs:
                     self.out.add(a + "\n", {"o": "spec", "f": blk.specfile, "l": blk.line, "fn": it.path()})
+            n0 = len(self.out.segs)
             self._flush(toks, it.a0, it.open + 1, edits, it.path())
+            self._impl_header = list(self.out.segs[n0:])
             self.out.add("\n", None)
             canaries = []
             for c in kids:
                 self._emit_item(c, only, canary, extra_rules, depth + 1)
                 self.out.add("\n", None)
             self.out.add("}\n", self._origin(it.end - 1, it.path()))
+            self._impl_header = None
             return
         if it.kind == "fn":
             self._emit_fn(it, blk, canary, extra_rules)
@@ -780,6 +802,9 @@ class Generator:
                 edits.replace[j] = toks[j].text + "__canary"
                 if blk is None:
                     self._insert_sig_clauses(it, edits, [("ensures", "canary", "false", None)], fnpath + "#canary", blk)
+            if is_canary:
+                main_out = self.out
+                self.out = Out()
             if blk is not None:
                 for a in blk.attrs:
                     self.out.add(a + "\n", {"o": "spec", "f": blk.specfile, "l": blk.line, "fn": fnpath})
@@ -787,6 +812,9 @@ class Generator:
                 self.out.add("\n#[allow(dead_code)] #[verifier::rlimit(2)] ", None)
             self._flush(toks, it.a0, it.end, edits, fnpath + ("#canary" if is_canary else ""))
             self.out.add("\n", None)
+            if is_canary:
+                self.canaries.append((getattr(self, "_impl_header", None), self.out.segs))
+                self.out = main_out
 
     # -- contract splicing ----------------------------------------------------------------------
     def _sig_parts(self, it):
